@@ -80,6 +80,8 @@ func Reject() []*e1.Program {
 		"select-native-continue-after-yield-in-loop": "for i := 0; i < 3; i++ {\n\tYIELD(i)\n\tch := make(chan int, 1)\n\tch <- i\n\tselect {\n\tcase v := <-ch:\n\t\tif v == 1 {\n\t\t\tcontinue\n\t\t}\n\t\ttr.E(2)\n\tdefault:\n\t}\n\tYIELD(10 + i)\n}\nRETNIL",
 		"range-func-native-break-after-yield-in-loop": "sq := func(yield func(int) bool) {\n\tfor i := 0; i < 3; i++ {\n\t\tif !yield(i) {\n\t\t\treturn\n\t\t}\n\t}\n}\nfor i := 0; i < 2; i++ {\n\tYIELD(i)\n\tfor v := range sq {\n\t\tif v == 1 {\n\t\t\tbreak\n\t\t}\n\t\ttr.V(1, v)\n\t}\n\tYIELD(10 + i)\n}\nRETNIL",
 		"range-ptr-array-native-continue-after-yield": "arr := [3]int{5, 6, 7}\nfor i := 0; i < 2; i++ {\n\tYIELD(i)\n\tfor j, v := range &arr {\n\t\tif j == 1 {\n\t\t\tcontinue\n\t\t}\n\t\ttr.V(1, v)\n\t}\n\tYIELD(10 + i)\n}\nRETNIL",
+		"defer-in-native-ptr-array-range": "arr := [2]int{1, 2}\nfor _, v := range &arr {\n\tdefer tr.V(70, v)\n}\nYIELD(1)\ntr.E(2)\nYIELD(3)\nRETNIL",
+		"defer-in-native-range-func": "sq := func(yield func(int) bool) {\n\tfor i := 0; i < 2; i++ {\n\t\tif !yield(i) {\n\t\t\treturn\n\t\t}\n\t}\n}\nfor v := range sq {\n\tdefer tr.V(71, v)\n}\nYIELD(1)\nYIELD(3)\nRETNIL",
 		"yield-in-else-if-init": "for i := 0; i < 3; i++ {\n\tif i == 0 {\n\t\tYIELD(0)\n\t} else if YIELD(100 + i); i == 1 {\n\t\tYIELD(1)\n\t} else {\n\t\tYIELD(-i)\n\t}\n}\nRETNIL",
 		"yield-in-second-else-if-init": "x := tr.N(1, 4)\nif x == 0 {\n\ttr.E(2)\n} else if x == 1 {\n\tYIELD(1)\n} else if YIELD(50); x == 2 {\n\ttr.E(3)\n}\nYIELD(9)\nRETNIL",
 		"yield-in-else-if-init-of-native-if": "x := tr.N(1, 3)\nif x == 0 {\n\ttr.E(2)\n} else if YIELD(50); x == 1 {\n\ttr.E(3)\n}\nYIELD(9)\nRETNIL",
@@ -175,6 +177,8 @@ func §E() {
 		{"fallthrough", "n := 0\nswitch tr.N(3, 2) {\ncase 0:\n\tn += 1\n\tfallthrough\ncase 1:\n\tn += 10\n}\nreturn n"},
 		{"range-func", "n := 0\nsq := func(yield func(int) bool) {\n\tfor i := 0; i < 3; i++ {\n\t\tif !yield(i) {\n\t\t\treturn\n\t\t}\n\t}\n}\nfor v := range sq {\n\tn += v\n}\nreturn n"},
 		{"range-ptr-array", "arr := [3]int{5, 6, 7}\nn := 0\nfor i, v := range &arr {\n\tn += i*100 + v\n}\nreturn n"},
+		{"range-ptr-array-with-break", "arr := [3]int{5, 6, 7}\nn := 0\nfor i, v := range &arr {\n\tif i == 1 {\n\t\tcontinue\n\t}\n\tif v == 7 {\n\t\tbreak\n\t}\n\tn += v\n}\nreturn n"},
+		{"labelled-range", "n := 0\nouter:\nfor _, a := range []int{1, 2, 3} {\n\tfor _, b := range []int{1, 2} {\n\t\tif b == 2 {\n\t\t\tcontinue outer\n\t\t}\n\t\tn += a * b\n\t}\n}\nreturn n"},
 	} {
 		body := fmt.Sprintf("YIELD(1)\nf := func() int {\n%s}\nYIELD(f())\nYIELD(2)\nRETNIL", indent(c.code))
 		p := G("x", body)
